@@ -53,11 +53,15 @@ structure St where
   paused : Bool
   /-- the DECSLRM capability as the implementation last reported it -/
   claim : Bool
+  /-- requested output was thrown away by a change of the output buffer while it was pending (outside the contract):
+      the terminal may be left inside a control sequence or with margins set, nothing can be demanded of the rest of
+      the history -/
+  dead : Bool
 
 instance : Inhabited St :=
   ⟨{ drv := default, vt := VTState.init 0 0 (fun _ _ => default), live := false, locked := false,
      out := XTermOut.fresh 0, bufN := 0, synced := true, want := VTState.init 0 0 (fun _ _ => default),
-     curKnown := true, valid := true, unk := 0, paused := false, claim := false }⟩
+     curKnown := true, valid := true, unk := 0, paused := false, claim := false, dead := false }⟩
 
 /-- The version of the code the working tree contains (flags regenerated from the source on every run). -/
 def fx : Fixes :=
@@ -312,7 +316,8 @@ def syncCheck (st : St) (vt' : VTState) (want : VTState) (known : Bool) (unk : N
     if attrs ∧ (vt'.bg ≠ want.bg ∨ vt'.rv ≠ want.rv) then
       s!"rendering attributes bg={vt'.bg} rv={vt'.rv}, requested bg={want.bg} rv={want.rv}" else "",
     if modes ∧ vt'.declrmm ≠ want.declrmm then "DECLRMM changed" else "",
-    if modes ∧ st.claim ∧ ¬ st.paused ∧ vt'.declrmm = false then "DECSLRM capability claimed but DECLRMM is reset" else "",
+    if modes ∧ st.claim ∧ ¬ st.paused ∧ vt'.declrmm = false then
+      "DECSLRM capability claimed but DECLRMM is reset (CSI Pl;Pr s is save-cursor there: a partial-width scroll would move cells outside its rectangle)" else "",
     if ¬ (0 ≤ vt'.row ∧ vt'.row < vt'.lines ∧ 0 ≤ vt'.col ∧ vt'.col < vt'.cols) then "cursor outside the screen" else "",
     if unk > 0 then s!"{unk} control sequence(s) unknown to the reference terminal" else "",
     gridCheck vt' want.grid,
@@ -448,7 +453,7 @@ def doOutbuf (st : St) (n : Nat) (impl : String) : St × String × String :=
       let verdict := syncCheck st vt' st.want st.curKnown unk true true
       (resync st1 vt', mobs, verdict)
     else
-      ({ st1 with vt := vt'.compact, unk := unk, valid := false }, mobs, "")
+      ({ st1 with vt := vt'.compact, unk := unk, valid := false, dead := true }, mobs, "")
 
 /-- `pause` (`tickit_term_pause`) / `stop` (`tickit_term_teardown`): a synchronisation point (both end with a
     flush).  Screen content, cursor and margins are as the requests so far ask; the rendering attributes and the
@@ -504,7 +509,7 @@ def doStart (st : St) (impl : String) : St × String × String :=
       if islrm ∧ vt'.declrmm = false then "DECSLRM capability claimed but DECLRMM is reset" else ""]
     ({ resync st1 vt' with paused := false, claim := islrm }, mobs, verdict)
 
-def step (st : St) (ts : List String) (impl : String) : St × String × String :=
+def step1 (st : St) (ts : List String) (impl : String) : St × String × String :=
   match ts with
   | "new" :: l :: c :: slrm :: colon :: rgb :: more =>
     match ints? [l, c, slrm, colon, rgb], (if more = [] then some [1, 2] else ints? more) with
@@ -533,7 +538,7 @@ def step (st : St) (ts : List String) (impl : String) : St × String × String :
       let v := vt2.compact
       ({ drv := drv, vt := v, live := true, locked := modeLockedOfReply slrm.toNat,
          out := XTermOut.fresh 0, bufN := 0, synced := true, want := v, curKnown := true, valid := true, unk := 0,
-         paused := false, claim := implSlrm }, mobs, verdict)
+         paused := false, claim := implSlrm, dead := false }, mobs, verdict)
     | _, _ => (st, "bad-op", "")
   | op :: rest =>
     if ¬ st.live then (st, "bad-op", "") else
@@ -594,6 +599,10 @@ def step (st : St) (ts : List String) (impl : String) : St × String × String :
     | "start", [] => doStart st impl
     | _, _ => (st, "bad-op", "")
   | [] => (st, "bad-op", "")
+
+def step (st : St) (ts : List String) (impl : String) : St × String × String :=
+  let (st', mobs, verdict) := step1 st ts impl
+  (st', mobs, if st'.dead then "" else verdict)
 
 def engine : Engine := { σ := St, init := default, step := step }
 
